@@ -13,8 +13,8 @@
 #include <string.h>
 
 /* ---- caller-owned state that must survive any failed operation */
-static json_object *pre_obj, *pre_arr, *pre_str, *pre_doc, *pre_patch;
-static char *snap_obj, *snap_arr, *snap_str, *snap_doc, *snap_patch;
+static json_object *pre_obj, *pre_arr, *pre_str, *pre_str2, *pre_doc, *pre_patch;
+static char *snap_obj, *snap_arr, *snap_str, *snap_str2, *snap_doc, *snap_patch;
 static char *ser(json_object *o)
 {
 	/* dump through the iteration API, not through the serializer under test */
@@ -74,6 +74,9 @@ static void build_pre(void)
 	json_object_array_add(pre_arr, json_object_new_int(1));
 	json_object_array_add(pre_arr, json_object_new_string("two"));
 	pre_str = json_object_new_string("short");
+	/* a string that has been grown once already: its value lives in a separately allocated buffer */
+	pre_str2 = json_object_new_string("tiny");
+	json_object_set_string(pre_str2, "grown once: this value no longer fits the storage inside the node itself");
 	pre_doc = json_tokener_parse(DOC);
 	pre_patch = json_tokener_parse("[{\"op\":\"add\",\"path\":\"/new\",\"value\":{\"x\":[1,2,3]}},{\"op\":\"copy\",\"from\":\"/a\",\"path\":\"/a2\"},"
 	                               "{\"op\":\"move\",\"from\":\"/c\",\"path\":\"/c2\"},{\"op\":\"replace\",\"path\":\"/d\",\"value\":\"r\"},"
@@ -81,6 +84,7 @@ static void build_pre(void)
 	snap_obj = ser(pre_obj);
 	snap_arr = ser(pre_arr);
 	snap_str = ser(pre_str);
+	snap_str2 = ser(pre_str2);
 	snap_doc = ser(pre_doc);
 	snap_patch = ser(pre_patch);
 }
@@ -89,11 +93,13 @@ static void drop_pre(void)
 	json_object_put(pre_obj);
 	json_object_put(pre_arr);
 	json_object_put(pre_str);
+	json_object_put(pre_str2);
 	json_object_put(pre_doc);
 	json_object_put(pre_patch);
 	free(snap_obj);
 	free(snap_arr);
 	free(snap_str);
+	free(snap_str2);
 	free(snap_doc);
 	free(snap_patch);
 }
@@ -244,13 +250,18 @@ static wres w_arr(int v)
 }
 static wres w_set_string(int v)
 {
-	wres r = {2, NULL, 4};
+	wres r = {2, NULL, v < 2 ? 4 : 32};
+	json_object *tgt = v < 2 ? pre_str : pre_str2;
 	int rc = v == 0 ? json_object_set_string(pre_str, "a considerably longer string than before, forcing a separate buffer")
-	                : json_object_set_string_len(pre_str, "x\0y-a considerably longer string than before..", 40);
+	       : v == 1 ? json_object_set_string_len(pre_str, "x\0y-a considerably longer string than before..", 40)
+	       : v == 2 ? json_object_set_string(pre_str2, "grown a second time: longer again than the separately allocated buffer that held the previous value")
+	       : v == 3 ? json_object_set_string_len(pre_str2, "grown a second time\0 with an embedded NUL: longer again than the separately allocated buffer was.", 95)
+	       : v == 4 ? json_object_set_string(pre_str2, "shrunk")
+	                : json_object_set_string(pre_str2, "equal len: this value no longer fits the storage inside the node itself!");
 	if (rc == 1)
 	{
 		r.status = 0;
-		r.result = ser(pre_str);
+		r.result = ser(tgt);
 	}
 	else
 	{
@@ -380,7 +391,7 @@ static struct
 	workload_fn fn;
 	int variants;
 } W[] = {{"parse_ex", w_parse, 12},   {"tokener_parse", w_parse_simple, 1}, {"construct", w_construct, 10}, {"object_add", w_obj_add, 3},
-         {"array_grow", w_arr, 4},    {"set_string", w_set_string, 2},      {"deep_copy", w_deep_copy, 1},  {"serialize", w_serialize, 13},
+         {"array_grow", w_arr, 4},    {"set_string", w_set_string, 6},      {"deep_copy", w_deep_copy, 1},  {"serialize", w_serialize, 13},
          {"pointer_set", w_pointer_set, 3}, {"pointer_get", w_pointer_get, 2}, {"patch", w_patch, 7}};
 #define NW (int)(sizeof W / sizeof *W)
 
@@ -401,6 +412,7 @@ static int unchanged(int mask)
 	CHK(4, pre_str, snap_str)
 	CHK(8, pre_doc, snap_doc)
 	CHK(16, pre_patch, snap_patch)
+	CHK(32, pre_str2, snap_str2)
 	return ok;
 }
 
